@@ -29,11 +29,11 @@ for size, tier in SIZES:
          shape={'size': size, 'cycles': 2})
 
 # every size in a range, symbolic (not only multiples of 8)
-inst(P, 'c18_life_sym_0_72', 'c18::lifecycle_sym(0, 72, 2)', unwind=10, stubs=['mmap_fs'], models=MODEL, cap=600, mem=8, weight=2,
+inst(P, 'c18_life_sym_0_72', 'c18::lifecycle_sym(0, 72, 2, true)', unwind=10, stubs=['mmap_fs'], models=MODEL, cap=600, mem=8, weight=2,
      desc='every file size 0..=72 bytes (symbolic): 2 map/drop cycles, both modes, missing file, OS refusal', shape={'size': '0..=72', 'cycles': 2})
-inst(P, 'c18_life_sym_pages', 'c18::lifecycle_sym(0, 12296, 1)', unwind=10, stubs=['mmap_fs'], models=MODEL, cap=900, mem=12, weight=9,
+inst(P, 'c18_life_sym_pages', 'c18::lifecycle_sym(0, 12296, 1, false)', unwind=10, stubs=['mmap_fs'], models=MODEL, cap=900, mem=12, weight=9,
      desc='every file size 0..=3 pages+8 bytes (symbolic): map/drop, both modes, missing file, OS refusal', shape={'size': '0..=12296', 'cycles': 1})
-inst(P, 'c18_life_sym_pages_c2', 'c18::lifecycle_sym(0, 12296, 2)', tier='thorough', unwind=10, stubs=['mmap_fs'], models=MODEL, cap=900, cap_thorough=3600, mem=16, weight=9,
+inst(P, 'c18_life_sym_pages_c2', 'c18::lifecycle_sym(0, 12296, 2, false)', tier='thorough', unwind=10, stubs=['mmap_fs'], models=MODEL, cap=900, cap_thorough=3600, mem=16, weight=9,
      desc='every file size 0..=3 pages+8 bytes (symbolic): 2 map/drop cycles', shape={'size': '0..=12296', 'cycles': 2})
 
 extra(P, assumptions=[
